@@ -132,9 +132,11 @@ class Ctx:
 
     # ---- budgets
     def budget(self, quick, thorough):
+        """case budget; when an anchored function no longer has the AST the model was written against
+        (source_drift) the quick tier explores with the thorough budget"""
         n = thorough if self.thorough else quick
         if self.notes.get("source_drift"):
-            n = max(n, (quick + thorough) // 2)
+            n = max(n, thorough)
         return n
 
     # ---- proof layer
@@ -469,6 +471,31 @@ class LineCoverage:
         except Exception:
             pass
         return False
+
+
+def note_drift(ctx, anchors):
+    """compare the normalised AST of every anchored function with the fingerprint the model was written against
+    (vcheck/fingerprints.json).  A difference is not a failure - harmless rewrites are allowed - but it is recorded
+    and escalates the exploration budget of this run."""
+    fp_path = os.path.join(VERIF, "vcheck", "fingerprints.json")
+    known = json.load(open(fp_path)) if os.path.exists(fp_path) else {}
+    drift = []
+    for relfile, names in anchors.items():
+        try:
+            info = func_sources(relfile, set(names))
+        except (OSError, SyntaxError) as e:
+            drift.append("%s: %s" % (relfile, e))
+            continue
+        for n in names:
+            key = "%s:%s" % (relfile, n)
+            if n not in info:
+                drift.append(key + " (missing)")
+            elif known.get(key) != info[n][2]:
+                drift.append(key)
+    if drift:
+        ctx.notes["source_drift"] = drift
+        ctx.thorough = True      # explore with the thorough budget; the evidence still records the requested tier
+    return drift
 
 
 def anchored_check(ctx, anchors, cov, fingerprints_key=None, ignore=()):
